@@ -194,6 +194,16 @@ def axioms_for(atom_list):
             for j in range(i + 1, len(lst)):
                 if lst[i][2] != lst[j][2]:
                     ax.append(Not(And(Atom(lst[i]), Atom(lst[j]))))
+    # x == 'a' and x == 'b' cannot both hold for distinct literals
+    by_lhs = {}
+    for a in atom_list:
+        if isinstance(a, tuple) and len(a) == 3 and a[0] == 'eq' and isinstance(a[2], tuple) and a[2] and a[2][0] == 'lit':
+            by_lhs.setdefault(a[1], []).append(a)
+    for t, lst in by_lhs.items():
+        for i in range(len(lst)):
+            for j in range(i + 1, len(lst)):
+                if lst[i][2] != lst[j][2]:
+                    ax.append(Not(And(Atom(lst[i]), Atom(lst[j]))))
     aset = set(atom_list)
     for a in atom_list:
         if isinstance(a, tuple) and a and a[0] == 'lt':
